@@ -189,6 +189,10 @@ func emitHistory(c *caseWriter, tags, kind string, s *srvRun, g *srvGen) {
 	for i := 1; i < len(splitTags(tags)); i++ {
 		outs = append(outs, []interface{}{L{1}})
 	}
+	if kind != "overlap" { // rounds of an overlap burst share their instants: outside the sequential-history theorems
+		tags += "+220"
+		outs = append(outs, []interface{}{L{1}})
+	}
 	c.addMulti(tags, kind, true, s.encode(macs), outs)
 }
 
